@@ -22,6 +22,8 @@ Nothing here touches /repo: scratch worktree /var/tmp/mutrepo, copy of /verif in
 """
 import json, os, random, re, subprocess, sys, time
 
+TAG = os.environ.get("MUT_TAG", "")  # second and later batches: MUT_TAG=2 keeps lists and results apart
+
 SRC = "/repo"
 REPO, VERIF, TARGET = "/var/tmp/mutrepo", "/var/tmp/mutverif", "/var/tmp/mutrepo-target"
 ALL = [f"C{i:02d}" for i in range(1, 21)]
@@ -130,13 +132,13 @@ def gen():
                 a = off + (len(line) - len(line.lstrip()))
                 out.append({"file": f, "line": no, "start": a, "end": a + len(s), "old": s, "new": "",
                             "text": s[:160], "kind": "delete"})
-    random.Random(57).shuffle(out)
+    random.Random(57 + (int(TAG) if TAG.isdigit() else 0)).shuffle(out)
     for i, m in enumerate(out):
         m["index"] = i
     head = subprocess.run(f"git -C {SRC} rev-parse --short HEAD", shell=True, capture_output=True, text=True).stdout.strip()
     for m in out:
         m["repo_head"] = head
-    json.dump(out, open("/var/tmp/mutants.json", "w"))
+    json.dump(out, open(f"/var/tmp/mutants{TAG}.json", "w"))
     by = {}
     for m in out:
         by[m["file"]] = by.get(m["file"], 0) + 1
@@ -198,7 +200,7 @@ def prefilter(m, repo, target, jobs):
 def known_prefilter():
     import glob
     k = {}
-    for p in glob.glob("/var/tmp/mutfilter_*.jsonl"):
+    for p in glob.glob(f"/var/tmp/mutfilter{TAG}_*.jsonl"):
         for l in open(p):
             r = json.loads(l)
             k[r["index"]] = r["verdict"]
@@ -241,14 +243,14 @@ def evaluate(m, stop_early=True, pre=None):
 def main():
     if sys.argv[1] == "gen":
         return gen()
-    muts = json.load(open("/var/tmp/mutants.json"))
+    muts = json.load(open(f"/var/tmp/mutants{TAG}.json"))
     if sys.argv[1] == "filter":
         a, b, slot = int(sys.argv[2]), int(sys.argv[3]), sys.argv[4]
         repo, target = f"/var/tmp/mutf{slot}", f"/var/tmp/mutf{slot}-target"
         if not os.path.isdir(repo):
             sh(f"git -C {SRC} worktree add -q --detach {repo} HEAD")
         sh("git reset -q --hard && git checkout -q --detach main", cwd=repo)
-        with open(f"/var/tmp/mutfilter_{slot}.jsonl", "a") as f:
+        with open(f"/var/tmp/mutfilter{TAG}_{slot}.jsonl", "a") as f:
             for m in muts[a:b]:
                 v = prefilter(m, repo, target, 4)
                 f.write(json.dumps({"index": m["index"], "verdict": v}) + "\n")
@@ -260,10 +262,10 @@ def main():
         print(json.dumps(evaluate(muts[int(sys.argv[2])], stop_early=False), indent=1))
     else:
         a, b = int(sys.argv[2]), int(sys.argv[3])
-        with open("/verif/seeded/mutants.jsonl", "a") as f:
+        with open(f"/verif/seeded/mutants{TAG}.jsonl", "a") as f:
             done = set()
-            if os.path.exists("/verif/seeded/mutants.jsonl"):
-                done = {json.loads(l)["index"] for l in open("/verif/seeded/mutants.jsonl")}
+            if os.path.exists(f"/verif/seeded/mutants{TAG}.jsonl"):
+                done = {json.loads(l)["index"] for l in open(f"/verif/seeded/mutants{TAG}.jsonl")}
             for m in muts[a:b]:
                 if m["index"] in done:
                     continue
